@@ -7,10 +7,38 @@ Inductive aop :=
 | AddBlack (id : bytes) | DelBlack (i : nat)
 | AddRw (id : bytes) | DelRw (i : nat)
 | AddAgg (id : bytes) | DelAgg (i : nat)
-| AddDest (key id : bytes) | DelDest (key : bytes) (i : nat).
+| AddDest (key id : bytes) | DelDest (key : bytes) (i : nat)
+(* modRoute / modDest: the options given (index into prefix, notPrefix, sub, notSub, regex, notRegex; new text) and whether all of
+   them are acceptable (oracle: the regexes compile) — an update with an unacceptable option must change nothing *)
+| ModRoute (key : bytes) (upd : list (nat * bytes)) (valid : bool)
+| ModDest (key : bytes) (i : nat) (upd : list (nat * bytes)) (valid : bool).
 
 Record tview := { v_black : list bytes; v_rw : list bytes; v_aggs : list bytes;
-                  v_routes : list (bytes * list bytes) }.      (* route key, destination ids *)
+                  v_routes : list (bytes * list bytes);        (* route key, destination ids *)
+                  v_filters : list (bytes * list bytes) }.     (* "r:key" / "d:key:id" -> the six filter options *)
+
+Definition rname (k : bytes) : bytes := ([114; 58]%N ++ k).
+Definition dname (k id : bytes) : bytes := ([100; 58]%N ++ k ++ [58]%N ++ id).
+Definition no_filter : list bytes := [[]; []; []; []; []; []].
+Fixpoint set_nth (i : nat) (x : bytes) (l : list bytes) : list bytes :=
+  match l, i with
+  | [], _ => []
+  | _ :: r, O => x :: r
+  | y :: r, S j => y :: set_nth j x r
+  end.
+Definition apply_upd (upd : list (nat * bytes)) (f : list bytes) : list bytes :=
+  fold_left (fun acc u => set_nth (fst u) (snd u) acc) upd f.
+Fixpoint filt_update (fs : list (bytes * list bytes)) (n : bytes) (upd : list (nat * bytes)) : list (bytes * list bytes) :=
+  match fs with
+  | [] => []
+  | (n', f) :: r => if beqb n n' then (n', apply_upd upd f) :: r else (n', f) :: filt_update r n upd
+  end.
+Definition filt_remove (fs : list (bytes * list bytes)) (keep : bytes -> bool) : list (bytes * list bytes) :=
+  filter (fun e => keep (fst e)) fs.
+Definition route_dests (rs : list (bytes * list bytes)) (k : bytes) : option (list bytes) :=
+  match find (fun e => beqb k (fst e)) rs with Some e => Some (snd e) | None => None end.
+Definition with_filters (v : tview) (fs : list (bytes * list bytes)) : tview :=
+  {| v_black := v_black v; v_rw := v_rw v; v_aggs := v_aggs v; v_routes := v_routes v; v_filters := fs |}.
 
 Definition del_nth {A} (i : nat) (l : list A) : list A := firstn i l ++ skipn (S i) l.
 
@@ -27,33 +55,51 @@ Fixpoint route_del (rs : list (bytes * list bytes)) (k : bytes) : list (bytes * 
 (* the table view after an operation, and whether the operation reports an error *)
 Definition admin_step (v : tview) (o : aop) : tview * bool :=
   match o with
-  | AddRoute id => ({| v_black := v_black v; v_rw := v_rw v; v_aggs := v_aggs v; v_routes := v_routes v ++ [(id, [])] |}, false)
-  | DelRoute k => ({| v_black := v_black v; v_rw := v_rw v; v_aggs := v_aggs v; v_routes := route_del (v_routes v) k |}, false)
-  | AddBlack id => ({| v_black := v_black v ++ [id]; v_rw := v_rw v; v_aggs := v_aggs v; v_routes := v_routes v |}, false)
+  | AddRoute id => ({| v_black := v_black v; v_rw := v_rw v; v_aggs := v_aggs v; v_routes := v_routes v ++ [(id, [])]; v_filters := v_filters v ++ [(rname id, no_filter)] |}, false)
+  | DelRoute k => ({| v_black := v_black v; v_rw := v_rw v; v_aggs := v_aggs v; v_routes := route_del (v_routes v) k;
+                    v_filters := filt_remove (v_filters v) (fun n => negb (beqb n (rname k)) && negb (has_prefix ([100; 58]%N ++ k ++ [58]%N) n)) |}, false)
+  | AddBlack id => ({| v_black := v_black v ++ [id]; v_rw := v_rw v; v_aggs := v_aggs v; v_routes := v_routes v; v_filters := v_filters v |}, false)
   | DelBlack i => if Nat.ltb i (length (v_black v))
-                  then ({| v_black := del_nth i (v_black v); v_rw := v_rw v; v_aggs := v_aggs v; v_routes := v_routes v |}, false)
+                  then ({| v_black := del_nth i (v_black v); v_rw := v_rw v; v_aggs := v_aggs v; v_routes := v_routes v; v_filters := v_filters v |}, false)
                   else (v, true)
-  | AddRw id => ({| v_black := v_black v; v_rw := v_rw v ++ [id]; v_aggs := v_aggs v; v_routes := v_routes v |}, false)
+  | AddRw id => ({| v_black := v_black v; v_rw := v_rw v ++ [id]; v_aggs := v_aggs v; v_routes := v_routes v; v_filters := v_filters v |}, false)
   | DelRw i => if Nat.ltb i (length (v_rw v))
-               then ({| v_black := v_black v; v_rw := del_nth i (v_rw v); v_aggs := v_aggs v; v_routes := v_routes v |}, false)
+               then ({| v_black := v_black v; v_rw := del_nth i (v_rw v); v_aggs := v_aggs v; v_routes := v_routes v; v_filters := v_filters v |}, false)
                else (v, true)
-  | AddAgg id => ({| v_black := v_black v; v_rw := v_rw v; v_aggs := v_aggs v ++ [id]; v_routes := v_routes v |}, false)
+  | AddAgg id => ({| v_black := v_black v; v_rw := v_rw v; v_aggs := v_aggs v ++ [id]; v_routes := v_routes v; v_filters := v_filters v |}, false)
   | DelAgg i => if Nat.ltb i (length (v_aggs v))
-                then ({| v_black := v_black v; v_rw := v_rw v; v_aggs := del_nth i (v_aggs v); v_routes := v_routes v |}, false)
+                then ({| v_black := v_black v; v_rw := v_rw v; v_aggs := del_nth i (v_aggs v); v_routes := v_routes v; v_filters := v_filters v |}, false)
                 else (v, true)
   | AddDest k id => match route_update (v_routes v) k (fun ds => Some (ds ++ [id])) with
-                    | Some rs => ({| v_black := v_black v; v_rw := v_rw v; v_aggs := v_aggs v; v_routes := rs |}, false)
+                    | Some rs => ({| v_black := v_black v; v_rw := v_rw v; v_aggs := v_aggs v; v_routes := rs;
+                                    v_filters := v_filters v ++ [(dname k id, no_filter)] |}, false)
                     | None => (v, true)
                     end
   | DelDest k i => match route_update (v_routes v) k (fun ds => if Nat.ltb i (length ds) then Some (del_nth i ds) else None) with
-                   | Some rs => ({| v_black := v_black v; v_rw := v_rw v; v_aggs := v_aggs v; v_routes := rs |}, false)
+                   | Some rs => ({| v_black := v_black v; v_rw := v_rw v; v_aggs := v_aggs v; v_routes := rs;
+                                   v_filters := match route_dests (v_routes v) k with
+                                                | Some ds => filt_remove (v_filters v) (fun n => negb (beqb n (dname k (nth i ds []))))
+                                                | None => v_filters v
+                                                end |}, false)
                    | None => (v, true)
                    end
+  | ModRoute k upd valid =>
+      match route_dests (v_routes v) k with
+      | Some _ => if valid then (with_filters v (filt_update (v_filters v) (rname k) upd), false) else (v, true)
+      | None => (v, true)
+      end
+  | ModDest k i upd valid =>
+      match route_dests (v_routes v) k with
+      | Some ds => if Nat.ltb i (length ds) && valid
+                   then (with_filters v (filt_update (v_filters v) (dname k (nth i ds [])) upd), false) else (v, true)
+      | None => (v, true)
+      end
   end.
 
 Definition tview_eqb (a b : tview) : bool :=
   list_eqb beqb (v_black a) (v_black b) && list_eqb beqb (v_rw a) (v_rw b) && list_eqb beqb (v_aggs a) (v_aggs b)
-  && list_eqb (fun x y => beqb (fst x) (fst y) && list_eqb beqb (snd x) (snd y)) (v_routes a) (v_routes b).
+  && list_eqb (fun x y => beqb (fst x) (fst y) && list_eqb beqb (snd x) (snd y)) (v_routes a) (v_routes b)
+  && list_eqb (fun x y => beqb (fst x) (fst y) && list_eqb beqb (snd x) (snd y)) (v_filters a) (v_filters b).
 
 (* observed per op: error?, view afterwards, did a previously published slice change? *)
 Definition aobs : Type := bool * tview * bool.
@@ -68,4 +114,4 @@ Fixpoint admin_run (v : tview) (ops : list (aop * aobs)) : N :=
   end.
 
 Definition c18_verdict (ops : list (aop * aobs)) : N :=
-  admin_run {| v_black := []; v_rw := []; v_aggs := []; v_routes := [] |} ops.
+  admin_run {| v_black := []; v_rw := []; v_aggs := []; v_routes := []; v_filters := [] |} ops.
